@@ -32,6 +32,8 @@ class Macro:
         self.body = []       # ('label', name) | ('instr', rule index, [templates])
         self.depth = 1
         self.features = set()
+        self.has_typed = False   # a typed parameter here or in a macro called from here: the argument is range-checked
+                                 # by VALUE where the call stands, so `$` in it would be read at two different places
 
     def prod(self, prog):
         lines = []
@@ -73,7 +75,7 @@ def gen_macro(rng, prog, idx, callable_rules, global_syms):
     isa = prog.isa
     mac = Macro(idx)
     pnames = iter(['p%d' % i for i in range(12)])
-    expr_params, sub_params = [], {}
+    expr_params, sub_params, ptype = [], {}, {}
     nlines = rng.range(2, 3)
     label = rng.choice(LOCAL_LABELS) if rng.chance(0.5) else None
     label_at = rng.range(0, nlines) if label else None
@@ -83,6 +85,9 @@ def gen_macro(rng, prog, idx, callable_rules, global_syms):
         wrap = rng.weighted([(('', ''), 85), (('(', ')'), 10), (('[', ']'), 5)])
         mac.ops.append(('expr', n, typ, wrap))
         expr_params.append(n)
+        ptype[n] = typ
+        if typ:
+            mac.has_typed = True
         return n
 
     def template(o, callee_is_macro):
@@ -103,14 +108,16 @@ def gen_macro(rng, prog, idx, callable_rules, global_syms):
         typ = o[2]
         k = rng.below(100)
         if k < 35:
-            if expr_params and rng.chance(0.4):
-                n = rng.choice(expr_params)
+            ok = [q for q in expr_params if ptype[q] is None or ptype[q] == typ]
+            if ok and rng.chance(0.4):
+                n = rng.choice(ok)
             else:
                 n = new_expr_param(typ if rng.chance(0.5) else None)
             mac.features.add('typed-position' if typ else 'textual')
             return '{%s}' % n if rng.chance(0.8) else '{ %s }' % n
         if k < 50:
-            n = rng.choice(expr_params) if expr_params and rng.chance(0.5) else new_expr_param(None)
+            untyped = [q for q in expr_params if ptype[q] is None]
+            n = rng.choice(untyped) if untyped and rng.chance(0.5) else new_expr_param(None)
             mac.features.add('textual-in-expression')
             return rng.choice(['{%s} + %d', '{%s} * %d', '%d + {%s}'][0:2]) % (n, rng.range(1, 3)) if rng.chance(0.8) else '1 + {%s}' % n
         if k < 62:
@@ -119,7 +126,8 @@ def gen_macro(rng, prog, idx, callable_rules, global_syms):
             mac.features.add('local-label')
             return label if rng.chance(0.75) else label + ' + 1'
         if k < 88 and not callee_is_macro:
-            p = rng.choice(expr_params) if expr_params and rng.chance(0.5) else new_expr_param(None)
+            untyped = [q for q in expr_params if ptype[q] is None]
+            p = rng.choice(untyped) if untyped and rng.chance(0.5) else new_expr_param(None)
             t = 't%d' % len(mac.prelude)
             mac.prelude.append((t, p, rng.choice(['+', '+', '*', '-']), rng.range(1, 3)))
             mac.features.add('by-value')
@@ -127,6 +135,8 @@ def gen_macro(rng, prog, idx, callable_rules, global_syms):
         if k < 95 and global_syms:
             mac.features.add('global-in-body')
             return rng.choice(global_syms)
+        if callee_is_macro:
+            return str(rng.below(8))
         mac.features.add('pc-in-body')
         return '$'
 
@@ -138,6 +148,7 @@ def gen_macro(rng, prog, idx, callable_rules, global_syms):
         callee_is_macro = 'macro' in r
         if callee_is_macro:
             mac.depth = max(mac.depth, r['macro'].depth + 1)
+            mac.has_typed = mac.has_typed or r['macro'].has_typed
             mac.features.add('nested')
         mac.body.append(('instr', ri, [template(o, callee_is_macro) for o in r['ops'] if o[0] != 'reg']))
     if label is not None and label_at == nlines:
@@ -195,8 +206,10 @@ def add_macro_calls(rng, prog, first_macro):
     for _ in range(ncalls):
         ri = rng.range(first_macro, len(isa.rules) - 1)
         r = isa.rules[ri]
-        it = ('instr', ri, [gen_arg(rng, prog, o, syms) for o in r['ops'] if o[0] != 'reg'])
-        prog.items.insert(rng.range(0, len(prog.items)), it)
+        args = [gen_arg(rng, prog, o, syms) for o in r['ops'] if o[0] != 'reg']
+        if r['macro'].has_typed:
+            args = [a.replace('$', str(rng.below(10))) for a in args]
+        prog.items.insert(rng.range(0, len(prog.items)), ('instr', ri, args))
 
 
 class Fresh:
